@@ -455,7 +455,7 @@ def parse_violation(out):
 
 
 def world_stage(run, name, driver, spec, cfg, extra=None, slim=("id", "policy", "tasks", "supply"), env=None,
-                timeout=3000, witness=None, max_rounds=3, profile="dev", workers=None):
+                timeout=7000, witness=None, max_rounds=3, profile="dev", workers=None):
     """driver -> batch of systems with claims -> TLC explores the world model.
     witness: None, or function(record) -> set of expected witness keys (strings "id task")."""
     wd = run.sub(name)
@@ -483,7 +483,7 @@ def world_stage(run, name, driver, spec, cfg, extra=None, slim=("id", "policy", 
         if env:
             e.update(env)
         rc, out = tlc_mc(os.path.join(SPEC, "mc"), spec, cfg, wd, "%s-%d" % (name, rnd), timeout=timeout, env_extra=e,
-                         workers=workers, coverage=(run.tier == "thorough" and rnd == 0))
+                         workers=workers, coverage=False)
         gen, dist = parse_states(out)
         run.cov["states"] += dist
         run.cov["transitions"] += gen
